@@ -201,6 +201,8 @@ for k, what in (("core", "ten usual spellings (1, -1, 1e3, 0x1F, ~, null, True, 
                 ("first", "indicators in first position (#a, `- a`, a lone -, \"a)"),
                 ("spec-sanity", "vacuity guard: needs_quote rejects ordinary words and near-numbers (a b, +, ., +a, 1a, e1, 0x) and accepts 1., 1.5E-3, 0o17; a#b, a:b, -a, a-, a[b are outside")):
     ob(f"O-C14-yaml-quote-{k}", ["C14"], F, "c14_yaml_quote_" + k.replace("-", "_"), (YQ + what) if k != "spec-sanity" else what, [FM + "write/yaml.rs::must_quote", FM + "write/yaml.rs::ns_plain_one_line"], label="point", kind="point")
+for k, what in (("empty", "the empty key"), ("bare", "the key a-1 (written as it is)"), ("quoted", "the key `a b`")):
+    ob(f"O-C14-toml-key-{k}", ["C14"], F, f"c14_toml_key_{k}", "what the real Display for Key (TOML writer) emits is a key of TOML's grammar - a NON-EMPTY run of A-Za-z0-9_- or a quoted string - for " + what, [FM + "write/toml.rs::Key::fmt"], label="point", kind="point")
 
 CFG = {
     "trusted_base": [
